@@ -33,6 +33,8 @@ type Eng struct {
 	ptrField map[int]bool // field ids whose Go type is a pointer
 	known    map[string]bool
 	intField map[int]*types.Basic
+	macros   map[string]map[string]bool
+	notes    map[string]bool
 }
 
 // GuardRule is an automatic obligation attached to stores into certain heap components.
@@ -69,6 +71,13 @@ func loadEngine(dir, pat string, cs *ContractSet) (*Eng, error) {
 		strIdx: map[string]int{}, funcs: map[string]*ssa.Function{}, fnIds: map[string]int{}, consts: map[string]string{},
 		globalInit: map[string]string{}}
 	e.reg = newTypeReg(e.pkg.Pkg.Path())
+	for _, d := range cs.Directives {
+		if d[0] == "modelstruct" {
+			for _, n := range strings.Fields(d[1]) {
+				e.reg.modelled[n] = true
+			}
+		}
+	}
 	for fn := range ssautil.AllFunctions(prog) {
 		if fn.Pkg == e.pkg {
 			e.funcs[relFuncName(fn, e.pkg)] = fn
